@@ -26,13 +26,15 @@ var c01GuardExempt = []GuardExempt{
 }
 
 func checkC01(c *Ctx, r *Report) {
-	r.Explain = "Decides structural necessary conditions of 'a changes request returns exactly the visible changes': (R1) the set of channels a user's feed iterates is the result of filtering the requested channels against the user's available channels (or all requested channels only when there is no user), and every per-channel feed reads the cache obtained for that same channel; (R2) an entry later than the cached high sequence captured at the start of the iteration is not sent (except a revocation triggered at or before it), and that bound only comes from the channel cache's high sequence; (R3) feeds are merged with the proven order SequenceID.Before, the resume position only advances under it, and a waiting (longpoll) request gets the low sequence it arrived with restored before it waits; (R4) lock discipline of the per-channel cache (entries, validity point, doc-id index; late-arrival log) and of the change listener's counters; the per-channel doc-id index is maintained wherever entries leave or enter the entry list; (R5) wake-up protocol — the waiter evaluates its predicate under the notifier's lock inside the loop that waits, and every caller that feeds an entry into the sequence buffer forwards the resulting channel set to the notifier.; (R6) a back-fill lowers a channel cache's validity point only when the queried range reaches up to it; (R7) a late-arriving removal is queued for the late-sequence feeds as a removal, as it is stored in the cache. Not decided: that the merged entries equal the visible set, the remaining cache validity-point / back-fill / pruning arithmetic, de-duplication, limit/paging equivalence, liveness."
+	r.Explain = "Decides structural necessary conditions of 'a changes request returns exactly the visible changes': (R1) the set of channels a user's feed iterates is the result of filtering the requested channels against the user's available channels (or all requested channels only when there is no user), and every per-channel feed reads the cache obtained for that same channel; (R2) an entry later than the cached high sequence captured at the start of the iteration is not sent (except a revocation triggered at or before it), and that bound only comes from the channel cache's high sequence; (R3) feeds are merged with the proven order SequenceID.Before, the resume position only advances under it, and a waiting (longpoll) request gets the low sequence it arrived with restored before it waits; (R4) lock discipline of the per-channel cache (entries, validity point, doc-id index; late-arrival log) and of the change listener's counters; the per-channel doc-id index is maintained wherever entries leave or enter the entry list; (R5) wake-up protocol — the waiter evaluates its predicate under the notifier's lock inside the loop that waits, and every caller that feeds an entry into the sequence buffer forwards the resulting channel set to the notifier.; (R6) a back-fill lowers a channel cache's validity point only when the queried range reaches up to it; (R7) a late-arriving removal is queued for the late-sequence feeds as a removal, as it is stored in the cache; (R8) the validity point is stored only by the cache's maintenance functions, is raised to one past a dropped entry wherever entries are dropped from the front of the entry list, and an entry from the mutation feed is cached only if it is not older than the validity point; (R9) a channel read is answered from the cache alone only when the validity point returned with those entries is at most since+1, and the back-fill query spans exactly [since+1, that validity point] and is joined with the entries of the same cache read. Not decided: that the merged entries equal the visible set, the remaining cache validity-point / back-fill arithmetic (which entries a partial back-fill keeps), de-duplication, limit/paging equivalence, liveness."
 	c01R1(c, r)
 	c01R2R3(c, r)
 	c01R4(c, r)
 	c01R5(c, r)
 	c01R6(c, r)
 	c01R7(c, r)
+	c01R8(c, r)
+	c01R9(c, r)
 }
 
 func c01Worker(c *Ctx) (*ssa.Function, *ssa.Function) {
